@@ -94,6 +94,39 @@ def comb_pattern(ctx, case):
     _chk(ctx, 'simplify() does not change the verdict', got2, want)
 
 
+def comb_pair(ctx, case):
+    from core import matcher
+    from spec.matcher_ref import b_and
+    a, b = _leaf(ctx, 'a'), _leaf(ctx, 'b')
+    x, y = object(), object()
+    want = b_and(_v(a, x), _v(b, y))
+    pm = matcher.PairMatcher(a, '=', b)
+    _chk(ctx, 'PairMatcher.matches = both halves', bool(pm.matches((x, y))), want)
+    s = pm.simplify()
+    _chk(ctx, 'simplify() does not change the verdict (a constant half does not make the pair constant unless both agree)', bool(s.matches((x, y))), want)
+    al = s.always()
+    if al is not None:
+        _chk(ctx, 'a pair that calls itself constant is that constant', al, want)
+
+    class W(matcher.WrapMatcher):
+        def matches(self, v):
+            return self.wrapped.matches(v)
+    w = W(_leaf(ctx, 'w'))
+    want2 = _v(w.wrapped, x)
+    s2 = w.simplify()
+    _chk(ctx, 'WrapMatcher.simplify() does not change the verdict', bool(s2.matches(x)), want2)
+    # ArgMatcher = name pair value on one argument
+    from core import wl
+    n, v = _leaf(ctx, 'n'), _leaf(ctx, 'v')
+    arg = wl.Arg.Int(1)
+    arg.name = 'x'
+    am = matcher.ArgMatcher(n, v)
+    want3 = b_and(_v(n, 'x'), _v(v, arg))
+    n.verdict('x'); v.verdict(arg)
+    got3 = bool(am.simplify().matches(arg))
+    _chk(ctx, 'ArgMatcher (name=value) after simplify()', got3, want3)
+
+
 def _chk(ctx, label, got, want):
     from spec.matcher_ref import b_not
     if isinstance(want, bool):
@@ -147,7 +180,7 @@ def gen_expressions(tier):
     if tier == 'quick':
         exprs = exprs[::6]
     else:
-        exprs = exprs[::3]      # with <= 2 arguments per message; the full product is hours of CPU
+        exprs = exprs[3::6]     # another sixth of the family than the quick tier, with <= 2 arguments per message (the full product is many hours of CPU)
     return exprs
 
 
@@ -359,6 +392,7 @@ def obligations(tier):
         Ob('L1-matcher-list', 'symx', 'MatcherList over abstract leaves: matches, simplify, always', FUNCS[10:12], '<= 3 positives, <= 2 negatives, every always() annotation, verdicts symbolic', comb_list, cases=lists),
         Ob('L1-args-list', 'symx', 'ArgsMatcherList over abstract leaves', FUNCS[12:14], '<= 2 + 2 leaves, <= 2 arguments', comb_args, cases=argl,
            outside='argument tuples of length 0 together with a constant-true item (undocumented syntax)'),
+        Ob('L1-pair-and-wrap', 'symx', 'PairMatcher / WrapMatcher / ArgMatcher over abstract leaves: matches and simplify', FUNCS[25:27] + FUNCS[19:20], 'every always() annotation, verdicts symbolic', comb_pair, cases=[None]),
         Ob('L1-message-pattern', 'symx', 'MessagePattern over abstract components incl. the .new / .destroyed alternatives', FUNCS[8:10], 'all four components abstract, creates / destroys on or off', comb_pattern,
            cases=[(a, b) for a in (False, True) for b in (False, True)]),
         Ob('L3-expressions', 'symx', 'parse(text) and parse(text).simplify() vs the reference denotation on symbolic messages', FUNCS, bounds3, expression,
